@@ -1,6 +1,5 @@
 /-
-Helper lemmas for the phase-3 part of C20 (Model/Misc3.lean): `str.split`, Python `int(text, 16)` on decimal digit strings,
-the BCD text form, the file branch of `load_hex_string`, round-half-even, the `size_fmt` loop.  Core Lean only.
+Helper lemmas for the phase-3 part of C20 (Model/Misc3.lean): `str.split`, the BCD text form, the file branch of `load_hex_string`, round-half-even, the `size_fmt` loop.  Core Lean only.
 -/
 import SpsdkVerif.Model.Misc3
 import SpsdkVerif.Proofs.Misc
@@ -41,58 +40,15 @@ theorem splitOn_append (sep : Char) (a rest : List Char) (ha : sep ∉ a) :
     simp [splitOn, hc, this]
 
 theorem dec_facts (c : Char) (h : '0' ≤ c ∧ c ≤ '9') :
-    isWsC c = false ∧ lowerCh c = c ∧ c ≠ '_' ∧ digitVal c < 16 ∧ digitVal c = c.toNat - 48 ∧
-    c ≠ 'x' ∧ c ≠ '-' ∧ c ≠ '+' ∧ c ≠ '.' := by
+    lowerCh c = c ∧ digitVal c = c.toNat - 48 ∧ c ≠ '.' ∧ Generated.Misc3Tables.bcdNumAlphabet.contains c = true := by
   obtain ⟨n, rfl⟩ := digit_cases c h
   revert n
   decide
 
-theorem stripC_eq_self (s : List Char) (h : ∀ c ∈ s, isWsC c = false) : stripC s = s := by
-  unfold stripC
-  rw [dropWhile_head_false isWsC s, dropWhile_head_false isWsC s.reverse, List.reverse_reverse]
-  · intro x hx; exact h x (by simpa using List.mem_of_mem_head? hx)
-  · intro x hx; exact h x (List.mem_of_mem_head? hx)
-
-theorem pyIntHex_decimal (cs : List Char) (hne : cs ≠ []) (hd : ∀ c ∈ cs, '0' ≤ c ∧ c ≤ '9') :
-    pyIntHex cs = some ((cs.foldl (fun acc c => acc * 16 + (c.toNat - 48)) 0 : Nat) : Int) := by
-  have hf := fun c hc => dec_facts c (hd c hc)
-  have h1 : stripC cs = cs := stripC_eq_self cs (fun c hc => (hf c hc).1)
-  have h2 : cs.map lowerCh = cs := by
-    conv => rhs; rw [← List.map_id cs]
-    exact List.map_congr_left (fun c hc => (hf c hc).2.1)
-  have h3 : signSplit cs = (false, cs) := by
-    cases cs with
-    | nil => rfl
-    | cons c0 r =>
-      have := hf c0 (by simp)
-      unfold signSplit
-      split <;> simp_all
-  have h4 : dropHexPrefix cs = cs := by
-    rcases cs with _ | ⟨c0, _ | ⟨c1, r⟩⟩
-    · rfl
-    · unfold dropHexPrefix; split <;> simp_all
-    · have := hf c1 (by simp)
-      unfold dropHexPrefix
-      split <;> simp_all
-  have h5 : hexBodyValue cs = digitsValue 16 cs false 0 := by
-    cases cs with
-    | nil => exact absurd rfl hne
-    | cons c0 r =>
-      have := hf c0 (by simp)
-      unfold hexBodyValue
-      split <;> simp_all
-  have h6 := digitsValue_digits 16 cs 0 (fun c hc => ⟨(hf c hc).2.2.1, (hf c hc).2.2.2.1⟩)
-  have h7 : ∀ (l : List Char) (acc : Nat), (∀ c ∈ l, '0' ≤ c ∧ c ≤ '9') →
-      l.foldl (fun acc c => acc * 16 + digitVal c) acc = l.foldl (fun acc c => acc * 16 + (c.toNat - 48)) acc := by
-    intro l
-    induction l with
-    | nil => intros; rfl
-    | cons c l ih =>
-      intro acc hl
-      simp only [List.foldl_cons, (dec_facts c (hl c (by simp))).2.2.2.2.1]
-      exact ih _ (fun c hc => hl c (by simp [hc]))
-  simp only [pyIntHex, h1, h3, h2, h4, h5, h6, h7 cs 0 hd, Bool.false_eq_true, if_false]
-  rfl
+/-- every character of the generated alphabet is a hex digit, and only the decimal ones have a value ≤ 9 -/
+theorem alpha_facts : ∀ c ∈ Generated.Misc3Tables.bcdNumAlphabet,
+    digitVal (lowerCh c) < 16 ∧ (digitVal (lowerCh c) ≤ 9 → '0' ≤ c ∧ c ≤ '9') := by
+  decide
 
 theorem bcdToDigits_facts (n : Nat) (h : bcdDigitOk n = true) :
     bcdToDigits n ≠ [] ∧ (bcdToDigits n).length ≤ 4 ∧ (∀ c ∈ bcdToDigits n, '0' ≤ c ∧ c ≤ '9') ∧
@@ -114,15 +70,28 @@ theorem bcdToDigits_facts (n : Nat) (h : bcdDigitOk n = true) :
 
 theorem bcdNumFromStr_digits (n : Nat) (h : bcdDigitOk n = true) : bcdNumFromStr (bcdToDigits n) = .ok n := by
   obtain ⟨hne, hlen, hd, hv⟩ := bcdToDigits_facts n h
+  have hpos : 0 < (bcdToDigits n).length := List.length_pos_iff.2 hne
   have hg : bcdNumFromStrGuard ((bcdToDigits n).length : Int) = .ok true := by
     unfold bcdNumFromStrGuard
-    have h1 : ¬ (((bcdToDigits n).length : Int) < 0) := by omega
+    have h1 : ¬ (((bcdToDigits n).length : Int) < 1) := by omega
+    have h0 : ¬ (((bcdToDigits n).length : Int) < 0) := by omega
     have h2 : ¬ (((bcdToDigits n).length : Int) > 4) := by omega
-    simp [h1, h2]
+    simp [h0, h1, h2]
   have hc : bcdCheckNumber (n : Int) = .ok true := by
     rw [bcdCheckNumber_eq]; simp [h]
-  simp only [bcdNumFromStr, hg, pyIntHex_decimal _ hne hd, hv, hc, Int.toNat_natCast]
-
+  have hall : (bcdToDigits n).all (fun c => Generated.Misc3Tables.bcdNumAlphabet.contains c) = true := by
+    rw [List.all_eq_true]; intro c hc'; exact (dec_facts c (hd c hc')).2.2.2
+  have hf : ∀ (l : List Char) (acc : Nat), (∀ c ∈ l, '0' ≤ c ∧ c ≤ '9') →
+      l.foldl (fun acc c => acc * 16 + digitVal (lowerCh c)) acc = l.foldl (fun acc c => acc * 16 + (c.toNat - 48)) acc := by
+    intro l
+    induction l with
+    | nil => intros; rfl
+    | cons c l ih =>
+      intro acc hl
+      have := dec_facts c (hl c (by simp))
+      simp only [List.foldl_cons, this.1, this.2.1]
+      exact ih _ (fun c hc => hl c (by simp [hc]))
+  simp only [bcdNumFromStr, hexTextValue, hg, hall, if_true, hf _ 0 hd, hv, hc]
 
 /-- what the file branch does, in one expression -/
 theorem loadHexFile_eq (content : Bytes) (n : Int) (hn : 1 ≤ n) :
@@ -166,14 +135,97 @@ theorem bcdNumFromStr_ok (x : List Char) (n : Nat) (h : bcdNumFromStr x = .ok n)
   split at h
   · cases h
   · split at h
+    · split at h
+      · cases h
+      · rename_i hv
+        rw [bcdCheckNumber_eq] at hv
+        split at hv
+        · rename_i hc
+          cases h
+          simpa using hc.2
+        · cases hv
     · cases h
-    · rename_i v hv
-      rw [bcdCheckNumber_eq] at h
-      by_cases hc : 0 ≤ v ∧ bcdDigitOk v.toNat = true
-      · simp only [hc, and_self, if_true] at h
-        cases h; exact hc.2
-      · simp [hc] at h
 
+/-- every refusal of a component is an SPSDK error (fix 619e9e1; `int()` can no longer raise) -/
+theorem bcdNumFromStr_err (x : List Char) (e : PyErr) (h : bcdNumFromStr x = .error e) : e = .spsdk := by
+  unfold bcdNumFromStr at h
+  split at h
+  · rename_i e' hg
+    cases h
+    unfold bcdNumFromStrGuard at hg
+    split at hg
+    · cases hg; rfl
+    · cases hg
+  · split at h
+    · split at h
+      · rename_i e' hv
+        cases h
+        rw [bcdCheckNumber_eq] at hv
+        split at hv
+        · cases hv
+        · cases hv; rfl
+      · cases h
+    · cases h; rfl
+
+/-- an accepted component is 1–4 DECIMAL digits — the documented grammar (hex letters pass the alphabet test but fail
+    `_check_number`, because with at most four characters every character is a nibble of its own) -/
+theorem bcdNumFromStr_grammar (t : List Char) (n : Nat) (h : bcdNumFromStr t = .ok n) :
+    1 ≤ t.length ∧ t.length ≤ 4 ∧ ∀ c ∈ t, '0' ≤ c ∧ c ≤ '9' := by
+  have hok := bcdNumFromStr_ok t n h
+  unfold bcdNumFromStr at h
+  split at h
+  · cases h
+  · rename_i hg
+    have hlen : 1 ≤ t.length ∧ t.length ≤ 4 := by
+      refine Classical.byContradiction (fun hc => ?_)
+      have : bcdNumFromStrGuard (t.length : Int) = .error .spsdk := by
+        unfold bcdNumFromStrGuard
+        have : ((t.length : Int) < 1) ∨ ((t.length : Int) > 4) := by omega
+        rcases this with h' | h' <;> simp [h']
+      rw [this] at hg; cases hg
+    refine ⟨hlen.1, hlen.2, ?_⟩
+    split at h
+    · rename_i hall
+      split at h
+      · cases h
+      · cases h
+        rw [List.all_eq_true] at hall
+        have hm : ∀ c ∈ t, digitVal (lowerCh c) < 16 ∧ (digitVal (lowerCh c) ≤ 9 → '0' ≤ c ∧ c ≤ '9') :=
+          fun c hc => alpha_facts c (by simpa using hall c hc)
+        simp only [bcdDigitOk, hexTextValue, Bool.and_eq_true, decide_eq_true_eq] at hok
+        match t, hlen, hm, hok with
+        | [c1], _, hm, hok =>
+          have m1 := hm c1 (by simp)
+          simp at hok
+          intro c hc; simp at hc; subst hc
+          exact m1.2 (by omega)
+        | [c1, c2], _, hm, hok =>
+          have m1 := hm c1 (by simp); have m2 := hm c2 (by simp)
+          simp at hok
+          intro c hc; simp at hc
+          rcases hc with rfl | rfl
+          · exact m1.2 (by omega)
+          · exact m2.2 (by omega)
+        | [c1, c2, c3], _, hm, hok =>
+          have m1 := hm c1 (by simp); have m2 := hm c2 (by simp); have m3 := hm c3 (by simp)
+          simp at hok
+          intro c hc; simp at hc
+          rcases hc with rfl | rfl | rfl
+          · exact m1.2 (by omega)
+          · exact m2.2 (by omega)
+          · exact m3.2 (by omega)
+        | [c1, c2, c3, c4], _, hm, hok =>
+          have m1 := hm c1 (by simp); have m2 := hm c2 (by simp); have m3 := hm c3 (by simp); have m4 := hm c4 (by simp)
+          simp at hok
+          intro c hc; simp at hc
+          rcases hc with rfl | rfl | rfl | rfl
+          · exact m1.2 (by omega)
+          · exact m2.2 (by omega)
+          · exact m3.2 (by omega)
+          · exact m4.2 (by omega)
+        | [], hl, _, _ => simp at hl
+        | _ :: _ :: _ :: _ :: _ :: _, hl, _, _ => simp at hl
+    · cases h
 
 /-- the division count of the `size_fmt` loop: `k ≤ r ≤ k + #units`; the value is at least `base^r` (unless nothing was
     divided), and below `base^(r+1)` UNLESS the loop ran off the end of the unit list (`r = k + #units`) -/
